@@ -261,7 +261,7 @@ def stepLine (line : String) : String :=
       | .error .badBody => "E_BAD_BODY"
       | .error .badMessage => "E_BAD_MESSAGE"
     | _, _, _ => "bad-op"
-  | "stack" :: toks => Nsq.Model.WireStack.stackLine Nsq.Tie.WireStack.treeFixed toks
+  | "stack" :: toks => Nsq.Model.WireStack.stackLine Nsq.Tie.WireStack.tree toks
   | "bufw" :: cap :: ops =>
     match cap.toNat? with
     | some cap =>
